@@ -446,7 +446,9 @@ func c19Burst(f []string) vResult {
 	ln := newListener(raw, 8)
 	defer os.Remove(path)
 	var cs *Session
-	for attempt := 0; attempt < 5; attempt++ {
+	// the listener's end has the library's fixed one-second handshake budget: on a loaded machine an attempt can miss it,
+	// which says nothing about this scenario - keep trying for a while
+	for attempt, t0 := 0, time.Now(); attempt < 5 || time.Since(t0) < 45*time.Second; attempt++ {
 		conn, derr := net.Dial("unix", path)
 		if derr != nil {
 			err = derr
